@@ -93,8 +93,22 @@ def run_cases(prop, cases, jobs, case_timeout, hang_timeout):
         for s in shards:
             s.launch()
         active = list(shards)
+        stalls = 0
+        max_stalls = int(os.environ.get("VERIF_MAX_STALLS", "8"))
         while active:
             time.sleep(0.05)
+            if stalls > max_stalls:
+                # the watchdog keeps firing: stop instead of spending (cases x timeout); everything not yet run is reported as skipped (inconclusive)
+                for s in active:
+                    try:
+                        s.proc.kill()
+                        s.proc.wait()
+                    except Exception:
+                        pass
+                    for i, _ in s.pending:
+                        if i not in results:
+                            results[i] = {"i": i, "status": "skipped_after_repeated_timeouts"}
+                break
             for s in list(active):
                 progressed = False
                 for rec in s.poll_lines():
@@ -102,6 +116,8 @@ def run_cases(prop, cases, jobs, case_timeout, hang_timeout):
                     if rec["t"] == "start":
                         s.current = rec["i"]
                     elif rec["t"] == "end":
+                        if rec.get("status") == "timeout":
+                            stalls += 1
                         results[rec["i"]] = rec
                         s.pending = [c for c in s.pending if c[0] != rec["i"]]
                         s.current = None
@@ -149,6 +165,8 @@ def run_cases(prop, cases, jobs, case_timeout, hang_timeout):
                     active.remove(s)
                     continue
                 results[victim] = {"i": victim, "status": "hang" if hung else "crash", "rc": rc, "err": errtxt}
+                if hung:
+                    stalls += 1
                 s.pending = [c for c in s.pending if c[0] != victim]
                 if s.pending:
                     s.launch()
@@ -239,6 +257,7 @@ def main(argv=None):
     violations = []  # (case_index, violation dict)
     inconclusive = []
     linecov_seen = {}
+    case_times = sorted(float(rec.get("dt", 0.0) or 0.0) for rec in recs)
     for rec in recs:
         st = rec.get("status", "missing")
         statuses[st] = statuses.get(st, 0) + 1
@@ -275,6 +294,9 @@ def main(argv=None):
                     violations.append((rec["i"], v))
                     continue
             inconclusive.append("case %d (%s): %s" % (rec["i"], d.get("name", d.get("gen", "?")), st))
+        elif st == "skipped_after_repeated_timeouts":
+            if not any(x.startswith("run stopped") for x in inconclusive):
+                inconclusive.append("run stopped: more than %s cases hit the per-case watchdog; the remaining cases were not run" % os.environ.get("VERIF_MAX_STALLS", "8"))
         elif st in ("harness_error", "import_error", "missing"):
             inconclusive.append("case %d: %s: %s" % (rec["i"], st, (rec.get("err") or "")[-600:]))
 
@@ -355,6 +377,7 @@ def main(argv=None):
                 "input_classes": dict(sorted(classes.items())),
                 "notes": dict(sorted(notes.items())),
                 "case_status": statuses,
+                "case_seconds": {"max": round(case_times[-1], 3), "median": round(case_times[len(case_times) // 2], 4), "sum": round(sum(case_times), 1)} if case_times else {},
                 "known_findings_seen": {fid: len(lst) for fid, (ent, lst) in matched.items()},
                 "stale_findings": stale,
                 "hash_seed": os.environ.get("PYTHONHASHSEED"),
